@@ -735,6 +735,7 @@ func rulesExtract(p *Prog, r *Report, eng *Engine) {
 		}
 	}
 	collect(pr, 0)
+	rulePrinterVerbatim(p, r, "E5")
 	// accessor results that are loaded at all (plain assignments `license := *n.license()` included)
 	for _, b := range pr.Blocks {
 		for _, in := range b.Instrs {
